@@ -44,7 +44,7 @@ RULE = ("(a) 4 valid base CIDs (delimited with all 8 field types and both checks
         "field.validated (compared with the model as in C02, any non-FieldValueError flagged) and through cutplace.rows on "
         "delimited data; (c) containers: ODS and XLSX archives truncated at every k-th byte and with a bit flipped at every "
         "k-th byte (quick k=16/7, thorough k=1), delimited and fixed files with undecodable bytes, NUL, unterminated quotes, "
-        "short records; (d) cutplace.applications.main on hostile CIDs and data: exit code in {0,1,3} and never 4. "
+        "short records; fixed and delimited data under CIDs with every built-in field type; (c') validio.Writer under the same CIDs with one hostile value per row; (d) cutplace.applications.main on hostile CIDs and data: exit code in {0,1,3} and never 4. "
         "Observed: accepted / InterfaceError (+row named) / DataError / other exception. Non-trivial: the hostile value is "
         "non-empty. Distinct = distinct case.")
 EXHAUSTIVE = {"quick": False, "thorough": False}
@@ -113,14 +113,24 @@ DATA_CID = {"ods": [["D", "Format", "ods"], ["F", "a", "", "", "", "Integer"], [
             "xlsx": [["D", "Format", "excel"], ["F", "a", "", "", "", "Integer"], ["F", "b", "", "X", "", "Text"]],
             "csv": [["D", "Format", "delimited"], ["D", "Encoding", "utf-8"], ["F", "a", "", "", "", "Integer"], ["F", "b", "", "X", "", "Text"]],
             "txt": [["D", "Format", "fixed"], ["D", "Encoding", "utf-8"], ["D", "Line delimiter", "lf"], ["F", "a", "", "", "3", "Integer"], ["F", "b", "", "X", "5", "Text"]]}
-TEXT_BLOBS = {"csv": [b"1,x\n", b"1,\xff\n", b'1,"x\n', b"1,x\x00y\n", b"\xff\xfe1\x00", b"1,x\r\r\n2,y", b'1,"a"b\n', b"", b"\n\n", b"1\n", b"1,2,3\n", b"a,b\n", b"1,\xc3\n"],
+ALLTYPES_FIXED = [["D", "Format", "fixed"], ["D", "Encoding", "utf-8"], ["D", "Line delimiter", "lf"],
+                  ["F", "i", "", "", "3", "Integer"], ["F", "d", "", "X", "6", "Decimal"], ["F", "c", "", "", "1", "Choice", "x, y"],
+                  ["F", "t", "", "X", "10", "DateTime", "DD.MM.YYYY"], ["F", "p", "", "X", "2", "Pattern", "a*"], ["F", "r", "", "X", "2", "RegEx", "a."],
+                  ["F", "k", "", "", "1", "Constant", "k"], ["F", "s", "", "X", "4", "Text"]]
+ALLTYPES_DELIMITED = [["D", "Format", "delimited"], ["D", "Encoding", "utf-8"]] + [r[:4] + [""] + r[5:] for r in ALLTYPES_FIXED[3:]]
+DATA_CID["txtall"] = ALLTYPES_FIXED
+DATA_CID["csvall"] = ALLTYPES_DELIMITED
+TEXT_BLOBS = {"txtall": [b"  1   1.5x01.02.2003abaxkabcd\n", b"  1      x                    \n", b"  1  1,5 x01.02.2003abaxkabcd\n", b"  1   NaNx31.02.2003abaxkabcd\n",
+                         b"  1   1.5x01.02.2003abaxkabc", b"", b"  1   1.5z01.02.2003abaxkabcd\n  2   2.5y            \n"],
+              "csvall": [b"1,1.5,x,01.02.2003,ab,ax,k,abcd\n", b"1,,x,,,,,\n", b"1,NaN,x,,,,,\n", b"1,1.5,x,31.02.2003,,,,\n", b"1,1.5\n"],
+              "csv": [b"1,x\n", b"1,\xff\n", b'1,"x\n', b"1,x\x00y\n", b"\xff\xfe1\x00", b"1,x\r\r\n2,y", b'1,"a"b\n', b"", b"\n\n", b"1\n", b"1,2,3\n", b"a,b\n", b"1,\xc3\n"],
               "txt": [b"  1abcde\n", b"  1abc", b"  1abcde\r\n", b"  1ab\xffde\n", b"", b"\n", b"  1abcdeX", b"  1abcde\n  2", b"\xe4" * 8 + b"\n", b"  1abcd\xc3"]}
 _BLOBS = {}
 
 
 def container_bytes(inp):
     kind = inp["container"]
-    if kind in ("csv", "txt"):
+    if kind in TEXT_BLOBS:
         return TEXT_BLOBS[kind][inp["index"]]
     if kind not in _BLOBS:
         _BLOBS[kind] = ods_blob() if kind == "ods" else xlsx_blob()
@@ -146,6 +156,30 @@ def read_data(cid_rows, path):
         for _ in cutplace.rows(cid, path):
             n += 1
         return {"rows": n}
+    except errors.DataError as e:
+        return {"dataerror": type(e).__name__}
+    except errors.InterfaceError as e:
+        return {"interface": str(e)[:100]}
+    except Exception as e:  # noqa
+        return {"leak": type(e).__name__, "msg": str(e)[:120]}
+
+
+def write_data(cid_rows, rows):
+    """validio.Writer on a stream: rows either are written or refused with a DataError"""
+    from cutplace import validio
+    try:
+        cid = interface.Cid()
+        cid.read("c10", cid_rows)
+        out = io.StringIO()
+        done = []
+        with validio.Writer(cid, out) as w:
+            for row in rows:
+                try:
+                    w.write_row(row)
+                    done.append("ok")
+                except errors.DataError as e:
+                    done.append(type(e).__name__)
+        return {"written": done}
     except errors.DataError as e:
         return {"dataerror": type(e).__name__}
     except errors.InterfaceError as e:
@@ -212,6 +246,9 @@ def make_case(inp):
         obs = read_data(DATA_CID[ext], path)
         os.remove(path)
         return {"coq": P("CNoModel", "ONone"), "obs": obs, "nontrivial": True, "tags": ["container", ext, inp.get("damage", "text"), sorted(obs)[0]]}
+    if kind == "write":
+        obs = write_data(DATA_CID[inp["cid"]], inp["rows"])
+        return {"coq": P("CNoModel", "ONone"), "obs": obs, "nontrivial": True, "tags": ["write", inp["cid"], sorted(obs)[0]]}
     rc = run_cli(inp["cid"].encode("utf-8", "surrogateescape"), inp["data"].encode("utf-8", "surrogateescape"))
     return {"coq": P("CNoModel", "ONone"), "obs": {"exit": rc}, "nontrivial": True, "tags": ["cli", "exit-%s" % rc]}
 
@@ -227,6 +264,12 @@ def direct_oracle(inp, obs):
             return "declaring a %s field raised %s" % (inp["decl"]["type"], obs["decl_detail"])
         if obs["leaks"]:
             return "%s field: validated_value(%r) raised %s" % (inp["decl"]["type"], obs["leaks"][0][0], obs["leaks"][0][1])
+        return None
+    if kind == "write":
+        if "leak" in obs:
+            return "writing rows %r under the %s CID raised %s (%s)" % (inp["rows"], inp["cid"], obs["leak"], obs["msg"])
+        if "interface" in obs:
+            return "writing data was reported as InterfaceError: %s" % obs["interface"]
         return None
     if kind == "container":
         if "leak" in obs:
@@ -289,7 +332,7 @@ def gen_inputs(tier, rnd):
             yield {"kind": "cell", "decl": decl}
     # (c) containers
     os.makedirs(TMP, exist_ok=True)
-    for ext in ("csv", "txt"):
+    for ext in sorted(TEXT_BLOBS):
         for i in range(len(TEXT_BLOBS[ext])):
             yield {"kind": "container", "container": ext, "index": i}
     for ext, k_trunc, k_flip in (("ods", 16, 7), ("xlsx", 64, 29)):
@@ -302,6 +345,17 @@ def gen_inputs(tier, rnd):
             yield {"kind": "container", "container": ext, "damage": "flip", "at": at, "bit": at % 8}
     for declared in ["Shift_JIS", "x-no-such-encoding", "utf-7", "EBCDIC-CP-US", "UTF-16", "ISO-8859-1"]:
         yield {"kind": "container", "container": "ods", "damage": "declared-encoding", "declared": declared}
+    # (c') the validating writer under CIDs with every built-in field type
+    good_row = ["1", "1.5", "x", "01.02.2003", "ab", "ax", "k", "abcd"]
+    for cid_name in ("txtall", "csvall"):
+        yield {"kind": "write", "cid": cid_name, "rows": [good_row, ["2", "", "y", "", "", "", "", ""], good_row[:3]]}
+        for col in range(len(good_row)):
+            for v in (POOL if tier != "quick" else POOL[::4]):
+                if v in ("", "\x00"):
+                    continue
+                row = list(good_row)
+                row[col] = v
+                yield {"kind": "write", "cid": cid_name, "rows": [row, good_row]}
     # (d) the command line
     good_cid = csv_text(BASES["delimited"][:1] + [["D", "Encoding", "utf-8"], ["F", "a", "", "", "", "Integer"]])
     for data in ["1\n", "x\n", "\udcff\n", '"1\n', "", "1,2\n", "NaN\n"]:
